@@ -290,7 +290,13 @@ impl World {
         let scanner = Arc::new(DumbBlockScanner::new());
         scanner.add_forwards(vec![blocks(1..=START_BLOCK)]);
         let outside = Outside {
-            agg: Arc::new(RefAgg::new(chain.clone())),
+            // the reference aggregator knows the chain's stake distribution of every epoch by itself
+            agg: Arc::new(RefAgg::new(
+                chain.clone(),
+                (0..64u64)
+                    .map(|e| (e as i64, stakes_during(fixture, e).into_iter().map(|x| (x.party_id, x.stake)).collect()))
+                    .collect(),
+            )),
             chain,
             immutables,
             scanner,
@@ -302,7 +308,7 @@ impl World {
         };
         let node = build_node(&config, &outside).await;
         let w = World { dir, config, fixture: fixture.clone(), outside, node: Some(node), restarts: 0, critical_errors: 0, panics: 0 };
-        w.publish_chain_stakes().await;
+        w.show_node_stakes().await;
         w
     }
 
@@ -321,20 +327,39 @@ impl World {
         self.node().ticker.get_current_time_point().await.expect("time point")
     }
 
-    /// the chain shows the stake distribution of the current epoch; the reference aggregator reads
-    /// the same chain
-    async fn publish_chain_stakes(&self) {
-        let e = self.outside.agg.chain_epoch().await;
-        let s = stakes_during(&self.fixture, e as u64);
-        self.outside
-            .agg
-            .with(|st| st.stakes.insert(e, s.iter().map(|x| (x.party_id.clone(), x.stake)).collect()));
-        self.outside.chain.set_signers(s).await;
+    /// the signer's node shows the stake distribution of the epoch it is in
+    async fn show_node_stakes(&self) {
+        let e = self.outside.agg.node_epoch().await;
+        self.outside.chain.set_signers(stakes_during(&self.fixture, e as u64)).await;
     }
 
+    /// the chain enters the next epoch; the signer's node and the aggregator both see it (a skew
+    /// between them stays as it is)
     pub async fn next_epoch(&self) {
         self.outside.chain.next_epoch().await;
-        self.publish_chain_stakes().await;
+        self.show_node_stakes().await;
+    }
+
+    /// the chain enters the next epoch but only the aggregator notices: the signer's node lags
+    pub fn aggregator_ahead(&self) -> bool {
+        self.outside.agg.with(|st| {
+            if st.skew != 0 {
+                false
+            } else {
+                st.skew = 1;
+                true
+            }
+        })
+    }
+
+    /// the signer's node catches up with the epoch the aggregator is already in
+    pub async fn node_catches_up(&self) -> bool {
+        if !self.outside.agg.with(|st| std::mem::replace(&mut st.skew, 0) != 0) {
+            return false;
+        }
+        self.outside.chain.next_epoch().await;
+        self.show_node_stakes().await;
+        true
     }
 
     pub async fn next_immutable(&self) {
